@@ -117,6 +117,16 @@ def checkBlk : Rd Verdict := do
   -- the blocks read through the maps are the assembled triplets
   if canonE (image bs) != canonE es then
     return specFail (path ++ "/spec/image") s!"blocks read through their maps differ from the triplets: image={showList ((canonE (image bs)).map toString)} triplets={showList ((canonE es).map toString)}" feats
+  -- the assembly model (`distribute`: split by owner, local numbering, sorted duplicate-free halo map) against the real blocks;
+  -- stored duplicates are merged by the library and kept apart by the model: entries are compared after merging
+  let layout : List ParSpmv.Rank := bs.map fun B => (B.rowMap.length, B.onColMap.length, B.rowMap.headD 0, B.onColMap.headD 0)
+  for ((B, M), r) in (bs.zip (distribute layout es)).zipIdx do
+    if B.rowMap != M.rowMap || B.onColMap != M.onColMap then
+      return diff (path ++ "/assembly/maps") s!"rank{r} rows={showList B.rowMap} cols={showList B.onColMap}: not contiguous blocks" feats
+    if B.offColMap != M.offColMap then
+      return diff (path ++ "/assembly/halo_map") s!"rank{r} impl={showList B.offColMap} model={showList M.offColMap}" feats
+    if canonE B.on != canonE M.on || canonE B.off != canonE M.off then
+      return diff (path ++ "/assembly/entries") s!"rank{r} impl on={showList ((canonE B.on).map toString)} off={showList ((canonE B.off).map toString)} model on={showList ((canonE M.on).map toString)} off={showList ((canonE M.off).map toString)}" feats
   let ownedCols := (bs.map fun B => B.onColMap.length).sum
   if ownedCols != nCols then return ok (feats ++ ["trivial", "unowned_columns"])
   -- rank by rank against the block-level model
